@@ -75,6 +75,7 @@ import (
 
 	"verif/internal/core"
 	"verif/internal/flow"
+	"verif/internal/load"
 )
 
 const (
@@ -142,8 +143,9 @@ type c10retry struct {
 	ctx     types.Object // the closure's context parameter
 	calls   []*ast.CallExpr
 	loop    *ast.ForStmt
-	resVar  types.Object // variable receiving the handler's error
-	resKey  string       // nil-key of resVar
+	steps   map[ast.Node]bool // the statements that step the attempt counter (post statement or in the body)
+	resVar  types.Object      // variable receiving the handler's error
+	resKey  string            // nil-key of resVar
 	pm      map[ast.Node]ast.Node
 }
 
@@ -352,16 +354,61 @@ func c10LoopBound(c *core.Ctx, r *c10retry) {
 	for _, s := range cand {
 		ctr := c10obj(f, s.ctr)
 		ws := c10writes(f, r.lit, ctr)
-		// exactly one initialisation and one step (the loop's post statement)
+		// exactly one initialisation (before the loop / in its init statement); every other
+		// write is a unit step executed in the loop (post statement, or a statement of the body
+		// — `for ctr < Max { ...; ctr++ }`); that exactly one step separates two attempts on
+		// every path is decided by the flow analysis (c10RetryFlow)
 		var init *c10write
-		var step *c10write
+		var steps []*c10write
 		var extra ast.Node
+		stepDir := func(w *c10write) int64 {
+			switch st := w.at.(type) {
+			case *ast.IncDecStmt:
+				if st.Tok == token.INC {
+					return 1
+				}
+				return -1
+			case *ast.AssignStmt:
+				if len(st.Rhs) != 1 || len(st.Lhs) != 1 {
+					return 0
+				}
+				switch st.Tok {
+				case token.ADD_ASSIGN, token.SUB_ASSIGN:
+					if v, ok := c10constInt(f, st.Rhs[0]); ok && (v == 1 || v == -1) {
+						if st.Tok == token.SUB_ASSIGN {
+							return -v
+						}
+						return v
+					}
+				case token.ASSIGN:
+					// ctr = ctr + 1 / ctr = 1 + ctr / ctr = ctr - 1
+					if b, ok := ast.Unparen(st.Rhs[0]).(*ast.BinaryExpr); ok && (b.Op == token.ADD || b.Op == token.SUB) {
+						xi, yi := c10ident(b.X), c10ident(b.Y)
+						if xi != nil && c10obj(f, xi) == ctr {
+							if v, ok := c10constInt(f, b.Y); ok && v == 1 {
+								if b.Op == token.SUB {
+									return -1
+								}
+								return 1
+							}
+						}
+						if yi != nil && c10obj(f, yi) == ctr && b.Op == token.ADD {
+							if v, ok := c10constInt(f, b.X); ok && v == 1 {
+								return 1
+							}
+						}
+					}
+				}
+			}
+			return 0
+		}
 		for i := range ws {
 			w := &ws[i]
+			inLoop := (loop.Post != nil && w.at == ast.Node(loop.Post)) || (contains(loop.Body, w.at) && c10enclosingLit(r.pm, w.at) == r.lit)
 			switch {
-			case loop.Post != nil && w.at == loop.Post:
-				step = w
-			case (w.tok == token.DEFINE || w.tok == token.VAR || (w.tok == token.ASSIGN && w.at == loop.Init)) && init == nil && w.at.Pos() <= loop.Cond.Pos() && !contains(loop.Body, w.at):
+			case inLoop && stepDir(w) != 0:
+				steps = append(steps, w)
+			case !inLoop && (w.tok == token.DEFINE || w.tok == token.VAR || w.tok == token.ASSIGN) && init == nil && w.at.Pos() <= loop.Cond.Pos() && c10enclosingLit(r.pm, w.at) == r.lit:
 				init = w
 			default:
 				extra = w.at
@@ -375,32 +422,29 @@ func c10LoopBound(c *core.Ctx, r *c10retry) {
 		if !up && !initMax {
 			continue // this comparison is not about MaxAttempts
 		}
+		dir := int64(0)
+		for _, w := range steps {
+			d := stepDir(w)
+			if dir != 0 && d != dir {
+				extra = w.at
+			}
+			dir = d
+		}
 		if extra != nil {
-			c.Violate("R-C10-1", cons, pos(c, extra), sprintf("the attempt counter %q is written inside the retry closure other than by its initialisation and the loop's post statement: the number of attempts is no longer MaxAttempts", s.ctr.Name))
+			c.Violate("R-C10-1", cons, pos(c, extra), sprintf("the attempt counter %q is written inside the retry closure other than by its initialisation and a uniform unit step per iteration: the number of attempts is no longer MaxAttempts", s.ctr.Name))
 			return
 		}
-		if init == nil || step == nil {
-			undecided = sprintf("counter %q: cannot find its single initialisation and its step in the loop's post statement", s.ctr.Name)
+		if init != nil && len(steps) == 0 {
+			c.Violate("R-C10-1", cons, pos(c, loop.Cond), sprintf("the attempt counter %q is compared with MaxAttempts but never stepped in the loop: a persistently failing call is retried for ever", s.ctr.Name))
+			return
+		}
+		if init == nil {
+			undecided = sprintf("counter %q: cannot find its single initialisation before the loop", s.ctr.Name)
 			continue
 		}
-		// step direction
-		dir := int64(0)
-		switch st := step.at.(type) {
-		case *ast.IncDecStmt:
-			if st.Tok == token.INC {
-				dir = 1
-			} else {
-				dir = -1
-			}
-		case *ast.AssignStmt:
-			if len(st.Rhs) == 1 {
-				if v, ok := c10constInt(f, st.Rhs[0]); ok && (st.Tok == token.ADD_ASSIGN || st.Tok == token.SUB_ASSIGN) {
-					dir = v
-					if st.Tok == token.SUB_ASSIGN {
-						dir = -v
-					}
-				}
-			}
+		r.steps = map[ast.Node]bool{}
+		for _, w := range steps {
+			r.steps[w.at] = true
 		}
 		if dir != 1 && dir != -1 {
 			undecided = sprintf("counter %q: step is not ++/--/+= 1/-= 1", s.ctr.Name)
@@ -427,7 +471,7 @@ func c10LoopBound(c *core.Ctx, r *c10retry) {
 				return
 			}
 			c.Check(extraAttempts == 0, "R-C10-1", cons, pos(c, loop.Cond),
-				sprintf("counter %q starts at %d, is stepped by the post statement only and the loop runs while it is %s MaxAttempts: exactly MaxAttempts iterations", s.ctr.Name, k, s.op),
+				sprintf("counter %q starts at %d, is stepped by one only in the loop and the loop runs while it is %s MaxAttempts: exactly MaxAttempts iterations", s.ctr.Name, k, s.op),
 				sprintf("counter %q starts at %d and the loop runs while it is %s MaxAttempts: a persistently failing call is attempted MaxAttempts%+d times", s.ctr.Name, k, s.op, extraAttempts))
 			return
 		}
@@ -448,7 +492,7 @@ func c10LoopBound(c *core.Ctx, r *c10retry) {
 			return
 		}
 		c.Check(extraAttempts == 0, "R-C10-1", cons, pos(c, loop.Cond),
-			sprintf("counter %q starts at MaxAttempts, is decremented by the post statement only and the loop runs while it is %s %d: exactly MaxAttempts iterations", s.ctr.Name, s.op, k),
+			sprintf("counter %q starts at MaxAttempts, is decremented by one only in the loop and the loop runs while it is %s %d: exactly MaxAttempts iterations", s.ctr.Name, s.op, k),
 			sprintf("counter %q counts down from MaxAttempts while %s %d: a persistently failing call is attempted MaxAttempts%+d times", s.ctr.Name, s.op, k, extraAttempts))
 		return
 	}
@@ -567,13 +611,66 @@ func c10RetryFlow(c *core.Ctx, r *c10retry, foreign ast.Node) {
 	}
 	slice := map[types.Object]bool{}
 	reachesWD := false
-	var visit func(e ast.Node)
-	visit = func(e ast.Node) {
+	// visit follows values backwards: locals through their writes (searched under root), calls
+	// of same-package functions through the callee's return expressions and from there to the
+	// arguments of exactly those parameters the result depends on (`wait := p.randomize(base)`)
+	var visit func(e ast.Node, root ast.Node, depth int)
+	visit = func(e ast.Node, root ast.Node, depth int) {
 		if e == nil {
 			return
 		}
 		ast.Inspect(e, func(n ast.Node) bool {
 			switch x := n.(type) {
+			case *ast.FuncLit:
+				return false
+			case *ast.CallExpr:
+				fo, ok := f.Callee(x).(*types.Func)
+				if !ok || fo.Pkg() != f.Pkg.Types || depth >= 3 {
+					return true
+				}
+				fd := declOf(f.Pkg, fo)
+				if fd == nil {
+					return true
+				}
+				ast.Inspect(fd.Body, func(m ast.Node) bool {
+					switch r := m.(type) {
+					case *ast.FuncLit:
+						return false
+					case *ast.ReturnStmt:
+						for _, res := range r.Results {
+							visit(res, fd.Body, depth+1)
+						}
+						if len(r.Results) == 0 && fd.Type.Results != nil {
+							for _, fld := range fd.Type.Results.List {
+								for _, name := range fld.Names {
+									visit(name, fd.Body, depth+1)
+								}
+							}
+						}
+					}
+					return true
+				})
+				k := 0
+				if fd.Type.Params != nil {
+					for _, fld := range fd.Type.Params.List {
+						if len(fld.Names) == 0 {
+							k++
+							continue
+						}
+						for _, name := range fld.Names {
+							if k < len(x.Args) && slice[f.Info.Defs[name]] {
+								visit(x.Args[k], root, depth)
+							}
+							k++
+						}
+					}
+				}
+				if fd.Recv != nil && len(fd.Recv.List) == 1 && len(fd.Recv.List[0].Names) == 1 && slice[f.Info.Defs[fd.Recv.List[0].Names[0]]] {
+					if rcv := c10recv(x); rcv != nil {
+						visit(rcv, root, depth)
+					}
+				}
+				return false
 			case *ast.SelectorExpr:
 				if c10fieldSel(f, x, wdF) {
 					reachesWD = true
@@ -584,12 +681,12 @@ func c10RetryFlow(c *core.Ctx, r *c10retry, foreign ast.Node) {
 					return true
 				}
 				slice[v] = true
-				for _, w := range c10writes(f, f.Body, v) {
+				for _, w := range c10writes(f, root, v) {
 					if w.rhs != nil {
-						visit(w.rhs)
+						visit(w.rhs, root, depth)
 					}
 					if w.src != nil {
-						visit(w.src)
+						visit(w.src, root, depth)
 					}
 				}
 			}
@@ -597,7 +694,7 @@ func c10RetryFlow(c *core.Ctx, r *c10retry, foreign ast.Node) {
 		})
 	}
 	for _, d := range durs {
-		visit(d)
+		visit(d, f.Body, 0)
 	}
 
 	// ---- growth statements: writes, inside the loop, to slice variables declared outside it
@@ -705,6 +802,7 @@ func c10RetryFlow(c *core.Ctx, r *c10retry, foreign ast.Node) {
 	const (
 		evAttempted = "ev:attempted"
 		evStepped   = "ev:stepped"
+		evOverstep  = "ev:overstepped"
 		evWaited    = "ev:waited"
 		evInterr    = "ev:interruptible"
 		evCancel    = "ev:cancelled"
@@ -716,6 +814,7 @@ func c10RetryFlow(c *core.Ctx, r *c10retry, foreign ast.Node) {
 			if isAttempt[call] {
 				st.Set(evAttempted, flow.True)
 				st.Set(evStepped, flow.False)
+				st.Set(evOverstep, flow.False)
 				st.Set(evWaited, flow.False)
 				st.Set(evInterr, flow.False)
 				st.Set(evCancel, flow.False)
@@ -723,7 +822,10 @@ func c10RetryFlow(c *core.Ctx, r *c10retry, foreign ast.Node) {
 			}
 		},
 		OnNode: func(st *flow.State, n ast.Node) {
-			if r.loop.Post != nil && n == ast.Node(r.loop.Post) {
+			if r.steps[n] {
+				if st.Is(evStepped, flow.True) {
+					st.Set(evOverstep, flow.True)
+				}
 				st.Set(evStepped, flow.True)
 			}
 			if growth[n] {
@@ -779,6 +881,9 @@ func c10RetryFlow(c *core.Ctx, r *c10retry, foreign ast.Node) {
 			if !st.Is(evStepped, flow.True) && badStep == nil {
 				badStep = &finding{st, call, "a further attempt is reachable without the attempt counter having been stepped since the previous one: more than MaxAttempts attempts are possible"}
 			}
+			if st.Is(evOverstep, flow.True) && badStep == nil {
+				badStep = &finding{st, call, "the attempt counter is stepped more than once between two attempts on this path: fewer than MaxAttempts attempts are made (none at all for small values)"}
+			}
 			if !st.Is(r.resKey, flow.False) && badFail == nil {
 				badFail = &finding{st, call, "a further attempt is reachable although the previous attempt is not known to have failed (its error is " + map[flow.Val]string{flow.True: "nil", flow.Unknown: "untested"}[st.Get(r.resKey)] + "): the retry does not stop at the first success and the backend receives the request again"}
 			}
@@ -812,7 +917,7 @@ func c10RetryFlow(c *core.Ctx, r *c10retry, foreign ast.Node) {
 		}
 		c.Violate(rule, r.cons+"|"+role, pos(c, b.at), b.why, witness(b.st)...)
 	}
-	chk("R-C10-1", "counter stepped between attempts", badStep, sprintf("%d abstract 2nd+ attempt states, all after the loop's post statement", again))
+	chk("R-C10-1", "counter stepped between attempts", badStep, sprintf("%d abstract 2nd+ attempt states, all after exactly one step of the counter", again))
 	chk("R-C10-1", "retry only after failure", badFail, sprintf("%d abstract 2nd+ attempt states, all with the previous error known non-nil", again))
 	chk("R-C10-2", "no attempt after cancellation", badCancel, "no state reaches the handler after the Done case")
 	chk("R-C10-2", "back-off between attempts", badWait, sprintf("%d abstract 2nd+ attempt states, all after the timer case of the select", again))
@@ -871,10 +976,15 @@ func c10RetryFlow(c *core.Ctx, r *c10retry, foreign ast.Node) {
 			continue
 		}
 		exits++
-		if len(ex.Return.Results) != 1 {
+		var ret ast.Expr
+		switch {
+		case len(ex.Return.Results) == 1:
+			ret = ast.Unparen(ex.Return.Results[0])
+		case len(ex.Return.Results) == 0 && r.lit.Type.Results != nil && len(r.lit.Type.Results.List) == 1 && len(r.lit.Type.Results.List[0].Names) == 1:
+			ret = r.lit.Type.Results.List[0].Names[0] // bare return of the named result
+		default:
 			continue
 		}
-		ret := ast.Unparen(ex.Return.Results[0])
 		switch {
 		case f.Info.Types[ret].IsNil():
 			if !ex.State.Is(r.resKey, flow.True) && badExit == nil {
@@ -1054,14 +1164,30 @@ func c10Inject(c *core.Ctx) {
 // c10BreakerCtx: the breaker wrapper hands its ctx to the inner handler unchanged (so the
 // retry closure inside it watches the client's request context).
 func c10BreakerCtx(c *core.Ctx) {
-	f := fn(c, c10rs, "circuitBreakerWrapper", "Wrap")
-	if f == nil {
+	// role: every implementation of resilience.Wrapper.Wrap in the package other than the retry
+	// policy's (the exported interface fixes the method name and signature; the receiver type is
+	// unexported and may be renamed)
+	ws := funcsByRole(c, c10rs, func(g *flow.Func, fd *ast.FuncDecl) bool {
+		if fd.Name.Name != "Wrap" || fd.Recv == nil || len(fd.Recv.List) != 1 || load.RecvName(fd.Recv.List[0].Type) == "RetryPolicy" {
+			return false
+		}
+		sig, ok := g.Info.Defs[fd.Name].Type().(*types.Signature)
+		return ok && sig.Params().Len() == 1 && sig.Results().Len() == 1 && c10isHandlerSig(sig.Params().At(0).Type()) && c10isHandlerSig(sig.Results().At(0).Type())
+	})
+	if !c.RequireCount("R-C10-2", "Wrapper.Wrap implementations besides RetryPolicy", len(ws), 1) {
 		return
 	}
-	cons := fname(c10rs, "circuitBreakerWrapper", "Wrap")
+	for _, f := range ws {
+		c10BreakerCtxOne(c, f)
+	}
+}
+
+func c10BreakerCtxOne(c *core.Ctx, f *flow.Func) {
+	fd := f.Node.(*ast.FuncDecl)
+	cons := fname(c10rs, load.RecvName(fd.Recv.List[0].Type), "Wrap")
 	h := c10paramObj(f, f.Type, 0)
 	if h == nil {
-		c.Errorf("R-C10-2: anchor: circuitBreakerWrapper.Wrap has no named handler parameter")
+		c.Errorf("R-C10-2: anchor: %s has no named handler parameter", cons)
 		return
 	}
 	pm := parentMap(f.Body)
